@@ -22,7 +22,8 @@ type c06Stream struct {
 	Units  map[uint16][][]byte // unit bytes per PID (to map a delivered datum back to its unit)
 }
 
-func c06Base(seed int64, long bool) *c06Stream {
+func c06Base(seed int64, kind string) *c06Stream {
+	long := kind == "long"
 	type pidUnits struct {
 		pid   uint16
 		units []SUnit
@@ -30,7 +31,23 @@ func c06Base(seed int64, long bool) *c06Stream {
 	}
 	var pids []*pidUnits
 	psi := map[uint16]bool{0: true, 0x1000: true, 0x11: true}
-	if !long {
+	if kind == "lookalike" {
+		pids = []*pidUnits{}
+		pat := modelPAT(1, 0x1000)
+		pids = append(pids, &pidUnits{0, []SUnit{PSIUnit(0, 0, [][]byte{SecPAT(pat, ref.SecHdr{CNI: true})}, nil)}, 9})
+		plainPMT := func(v uint8) SUnit {
+			return PSIUnit(0x1000, 0, [][]byte{SecPMT(modelPMT(1, 0x100, 2), ref.SecHdr{CNI: true, Version: v})}, nil)
+		}
+		plainSDT := func(v uint8) SUnit {
+			return PSIUnit(0x11, 0, [][]byte{SecSDT(modelSDT(2), ref.SecHdr{CNI: true, Version: v})}, nil)
+		}
+		pids = append(pids,
+			&pidUnits{0x1000, []SUnit{plainPMT(1), lookalikePSI(0x1000, true, 2), plainPMT(3), lookalikePSI(0x1000, false, 4), plainPMT(5)}, 14},
+			&pidUnits{0x11, []SUnit{lookalikePSI(0x11, true, 1), plainSDT(2), lookalikePSI(0x11, false, 3), plainSDT(4), plainSDT(5)}, 2},
+			&pidUnits{0x100, []SUnit{lookalikePES(0x100, 51, seed), lookalikePES(0x100, 52, seed), PESUnit(0x100, 0xe0, pesPayload(53, 100, seed), 53, false), lookalikePES(0x100, 54, seed)}, 12},
+			&pidUnits{0x101, []SUnit{PESUnit(0x101, 0xc0, pesPayload(55, 300, seed), 55, true), PESUnit(0x101, 0xc0, pesPayload(56, 30, seed), 56, true)}, 0},
+		)
+	} else if !long {
 		patA, patB := modelPAT(1, 0x1000), modelPAT(1, 0x1000)
 		patB.TransportStreamID = 0x4321
 		pmtA, pmtB := modelPMT(1, 0x100, 2), modelPMT(1, 0x101, 2)
@@ -72,7 +89,7 @@ func c06Base(seed int64, long bool) *c06Stream {
 		unitOf = append(unitOf, uo)
 	}
 	order := roundRobin(lists)
-	st := &c06Stream{Name: map[bool]string{false: "mixed", true: "long"}[long], PSI: psi, Units: map[uint16][][]byte{}}
+	st := &c06Stream{Name: kind, PSI: psi, Units: map[uint16][][]byte{}}
 	for _, p := range pids {
 		for _, u := range p.units {
 			st.Units[p.pid] = append(st.Units[p.pid], u.Bytes)
@@ -85,6 +102,57 @@ func c06Base(seed int64, long bool) *c06Stream {
 		pos[s]++
 	}
 	return st
+}
+
+// lookalikePES is a three-packet PES whose second and third packets begin with bytes that look like
+// the start of a PES packet (elementary streams are full of 00 00 01 start codes): once the first
+// packet is lost, what is left must not be delivered as a unit of its own.
+func lookalikePES(pid uint16, tag int, seed int64) SUnit {
+	u := PESUnit(pid, 0xe0, pesPayload(tag, 3*184-14-9, seed), uint64(tag), false)
+	for _, off := range []int{184, 368} {
+		copy(u.Bytes[off:], []byte{0x00, 0x00, 0x01, 0xe0, 0x00, 0x00, 0x80, 0x00, 0x00})
+	}
+	return u
+}
+
+// lookalikePSI is a two-packet SDT (PID 0x11) or PMT section whose second packet begins, inside the
+// private bytes of a user-defined descriptor, with what looks like pointer_field 0 + a complete small
+// section of the same kind (with a correct CRC_32, or a wrong one) + stuffing.
+func lookalikePSI(pid uint16, validCRC bool, version uint8) SUnit {
+	var inner []byte
+	dataStart := 0
+	if pid == 0x11 {
+		inner = SecSDT(&astits.SDTData{TransportStreamID: 0x7777, OriginalNetworkID: 0x8888, Services: []*astits.SDTDataService{{ServiceID: 0x9999, RunningStatus: 4}}}, ref.SecHdr{CNI: true, Version: 30})
+		dataStart = 3 + 5 + 3 + 5 + 2
+	} else {
+		inner = SecPMT(&astits.PMTData{ProgramNumber: 1, PCRPID: 0x1abc, ElementaryStreams: []*astits.PMTElementaryStream{{ElementaryPID: 0x1abc, StreamType: astits.StreamTypeMPEG2Video}}}, ref.SecHdr{CNI: true, Version: 30})
+		dataStart = 3 + 5 + 4 + 2
+	}
+	if !validCRC {
+		inner[len(inner)-1] ^= 0x55
+	}
+	ud := bytes.Repeat([]byte{0x5a}, 183-dataStart)
+	ud = append(ud, 0x00)
+	ud = append(ud, inner...)
+	ud = append(ud, 0xff, 0xff, 0xff)
+	if len(ud) > 255 {
+		panic("lookalikePSI: descriptor too long")
+	}
+	look := fixLens([]*astits.Descriptor{{Tag: 0x80, UserDefined: ud}})
+	var sec []byte
+	if pid == 0x11 {
+		d := modelSDT(1)
+		d.Services[0].Descriptors = look
+		sec = SecSDT(d, ref.SecHdr{CNI: true, Version: version})
+	} else {
+		d := modelPMT(1, 0x100, 2)
+		d.ProgramDescriptors = look
+		sec = SecPMT(d, ref.SecHdr{CNI: true, Version: version})
+	}
+	if !bytes.Equal(sec[183:183+len(inner)+1], append([]byte{0}, inner...)) {
+		panic("lookalikePSI: the look-alike is not at the start of the second packet")
+	}
+	return PSIUnit(pid, 0, [][]byte{sec}, nil)
 }
 
 // fault: kind 'd' duplicate packet i (copy inserted right after it), 'D' duplicate packet i with
@@ -318,8 +386,9 @@ func checkC06(c *mc.Ctx) {
 	c.Ev.Rule = "(a) every single duplication, every single deletion, every burst and every pair of faults on well-formed base streams, outputs of the real Demuxer related as the statement demands; (b) all packet sequences up to the length bound over the alphabet {continuity delta dup/+1/+2} x {PUSI} x {payload, AF-only, TEI, discontinuity_indicator} for PID A plus packets of PID B, safety oracle on the delivered units; distinct_nontrivial = distinct fault sets / sequences"
 	c.Ev.Assumptions = append(c.Ev.Assumptions, "a duplicate is a byte-identical copy inserted immediately after the original (ISO 13818-1 2.4.3.3)",
 		"loss relation evaluated only for PIDs where fewer than 16 packets in a row are lost and a later payload packet of the PID survives")
-	for _, long := range []bool{false, true} {
-		st := c06Base(c.Seed, long)
+	for _, kind := range []string{"mixed", "long", "lookalike"} {
+		long := kind == "long"
+		st := c06Base(c.Seed, kind)
 		cleanOut := DemuxBytes(EncodePkts(st.Pkts))
 		clean := canonData(cleanOut.Data)
 		n := len(st.Pkts)
